@@ -62,7 +62,7 @@ pub fn g1(bases: &[usize]) -> Group {
     Group {
         name: "G1",
         describe: format!(
-            "G1: full product bps(5) x atom of block 0 (30) x relation(6) x lpc_order(6) x precision(5) x window(5) at base points {bases:?}"
+            "G1: full product bps(5) x atom of block 0 (31) x relation(6) x lpc_order(6) x precision(5) x window(5) at base points {bases:?}"
         ),
         cases,
     }
@@ -93,7 +93,7 @@ pub fn gs(bases: &[usize]) -> Group {
     }
     Group {
         name: "GS",
-        describe: format!("GS: full product stereo switches(8) x relation(6) x bps(5) x atom of block 0 (30) at base points {bases:?}, 2 channels"),
+        describe: format!("GS: full product stereo switches(8) x relation(6) x bps(5) x atom of block 0 (31) at base points {bases:?}, 2 channels"),
         cases,
     }
 }
@@ -123,7 +123,7 @@ pub fn gh() -> Group {
     Group { name: "GH", describe: "GH: full product rate(19) x block size(19) x bps(5), mono, one full block + 17 samples".into(), cases }
 }
 
-pub const G9_ATOMS: [u8; 10] = [20, 21, 22, 23, 4, 18, 26, 24, 28, 29];
+pub const G9_ATOMS: [u8; 11] = [20, 21, 22, 23, 4, 18, 26, 24, 28, 29, 30];
 
 /// G9: width{16,20,24} x loud atoms x Rice cap 0..=14 x order selection x {fixed,lpc} x channel setups x block size.
 pub fn g9(block_sizes: &[u32]) -> Group {
